@@ -100,6 +100,9 @@ def gen_case(ctx, i):
     else:
         a = np.sort(r.integers(0, 50, (2, 2)), axis=0).astype(float)
         b = np.sort(r.integers(0, 50, (2, 2)), axis=0).astype(float) if r.random() < 0.8 else a.copy()
+        if r.random() < 0.3:  # disjoint on both axes (diagonal neighbours), small and large gaps
+            b = a + (a[1] - a[0]) + r.integers(1, int(r.choice([4, 40, 400])), 2) * r.choice([-1, 1], 2) * 1.0
+            b = np.sort(np.stack([b[0], b[0] + r.integers(0, 30, 2)]), axis=0) if r.random() < 0.5 else b
         c.update(a=[a[0, 0], a[0, 1], a[1, 0], a[1, 1]], b=[b[0, 0], b[0, 1], b[1, 0], b[1, 1]])
     return c
 
